@@ -313,6 +313,20 @@ def owners_of(ctx, case, log_, verdict):
         return {"C09"}, key
     if cls == "j":
         return {"C09", "C10"}, key
+    # a command sent to an arbiter after run() has returned: if that arbiter was created before the system stop and was not
+    # stopped by the script itself, what the refused result shows is that the stop did not end its event loop — C09's business too
+    # (for an arbiter whose owner was dropped there is no join to show it)
+    toks = case.split()[2:]
+    if n is not None and cls in ("sp", "sf") and "wr" in toks[:n]:
+        try:
+            k = int(tok.split(":")[1])
+            first_ss = next(i for i, t in enumerate(toks) if t.startswith("ss:"))
+            created_before = sum(1 for t in toks[:first_ss] if t.startswith("n:")) > k
+            own_stop = any(t.startswith("st:%d:" % k) for t in toks[:n])
+            if created_before and not own_stop:
+                return {"C09", "C10"}, key
+        except (StopIteration, ValueError, IndexError):
+            pass
     return {"C10"}, key
 
 
